@@ -57,6 +57,14 @@ package stackage
 //@ ensures C != nil ==> cwf(C)
 //@ modifies nothing
 
+//@ func randomID
+//@ assumed math/rand-based identifier generator; its value is irrelevant to every property
+//@ modifies nothing
+
+//@ func ptrString
+//@ assumed fmt.Sprintf("%p") of a pointer; its value is irrelevant to every property
+//@ modifies nothing
+
 // ---------------------------------------------------------------------
 
 //@ func (*stack).canPushNester
@@ -474,3 +482,457 @@ package stackage
 //@ ensures[C06:Cond.ex] F_condition_ex[c] == ite(ok2, ex, nil)
 //@ ensures[C06:Cond.err] (F_nodeConfig_err[F_condition_cfg[c]] == nil) == condValid(F_condition_kw[c], F_condition_op[c], F_condition_ex[c])
 //@ modifies F_condition_*[fresh], F_nodeConfig_*[fresh], F_logSystem_*[fresh], G_calls_len, G_calls_fn, G_calls_arg
+
+// ---------------------------------------------------------------------
+// C18: options are independent switches with faithful getters (generated from one template per switch)
+
+//@ func (Stack).SetParen
+//@ tags C18
+//@ safety C08,C17
+//@ requires r == nil || wf(r)
+//@ let c := cfgOf(r)
+//@ let o := F_nodeConfig_opt[c]
+//@ let live := r != nil && !bit(o, 0x0080)
+//@ ensures[C18:SetParen.set] live && len(state) > 0 && state[0] ==> F_nodeConfig_opt[c] == o | 0x0001
+//@ ensures[C18:SetParen.clear] live && len(state) > 0 && !state[0] ==> F_nodeConfig_opt[c] == o &^ 0x0001
+//@ ensures[C18:SetParen.toggle] live && len(state) == 0 ==> F_nodeConfig_opt[c] == o ^ 0x0001
+//@ ensures[C18,C09:SetParen.dead] r != nil && !live ==> F_nodeConfig_opt[c] == o
+//@ ensures[:SetParen.ret] result == r
+//@ modifies F_nodeConfig_opt[c], F_nodeConfig_ldr[c], G_held
+
+//@ func (Stack).SetFold
+//@ tags C18
+//@ safety C08,C17
+//@ requires r == nil || wf(r)
+//@ let c := cfgOf(r)
+//@ let o := F_nodeConfig_opt[c]
+//@ let live := r != nil && !bit(o, 0x0080)
+//@ ensures[C18:SetFold.set] live && len(state) > 0 && state[0] ==> F_nodeConfig_opt[c] == o | 0x0002
+//@ ensures[C18:SetFold.clear] live && len(state) > 0 && !state[0] ==> F_nodeConfig_opt[c] == o &^ 0x0002
+//@ ensures[C18:SetFold.toggle] live && len(state) == 0 ==> F_nodeConfig_opt[c] == o ^ 0x0002
+//@ ensures[C18,C09:SetFold.dead] r != nil && !live ==> F_nodeConfig_opt[c] == o
+//@ ensures[:SetFold.ret] result == r
+//@ modifies F_nodeConfig_opt[c], F_nodeConfig_ldr[c], G_held
+
+//@ func (Stack).SetNoPadding
+//@ tags C18
+//@ safety C08,C17
+//@ requires r == nil || wf(r)
+//@ let c := cfgOf(r)
+//@ let o := F_nodeConfig_opt[c]
+//@ let live := r != nil && !bit(o, 0x0080)
+//@ ensures[C18:SetNoPadding.set] live && len(state) > 0 && state[0] ==> F_nodeConfig_opt[c] == o | 0x0004
+//@ ensures[C18:SetNoPadding.clear] live && len(state) > 0 && !state[0] ==> F_nodeConfig_opt[c] == o &^ 0x0004
+//@ ensures[C18:SetNoPadding.toggle] live && len(state) == 0 ==> F_nodeConfig_opt[c] == o ^ 0x0004
+//@ ensures[C18,C09:SetNoPadding.dead] r != nil && !live ==> F_nodeConfig_opt[c] == o
+//@ ensures[:SetNoPadding.ret] result == r
+//@ modifies F_nodeConfig_opt[c], F_nodeConfig_ldr[c], G_held
+
+//@ func (Stack).SetLeadOnce
+//@ tags C18
+//@ safety C08,C17
+//@ requires r == nil || wf(r)
+//@ let c := cfgOf(r)
+//@ let o := F_nodeConfig_opt[c]
+//@ let live := r != nil && !bit(o, 0x0080)
+//@ ensures[C18:SetLeadOnce.set] live && len(state) > 0 && state[0] ==> F_nodeConfig_opt[c] == o | 0x0008
+//@ ensures[C18:SetLeadOnce.clear] live && len(state) > 0 && !state[0] ==> F_nodeConfig_opt[c] == o &^ 0x0008
+//@ ensures[C18:SetLeadOnce.toggle] live && len(state) == 0 ==> F_nodeConfig_opt[c] == o ^ 0x0008
+//@ ensures[C18,C09:SetLeadOnce.dead] r != nil && !live ==> F_nodeConfig_opt[c] == o
+//@ ensures[:SetLeadOnce.ret] result == r
+//@ modifies F_nodeConfig_opt[c], F_nodeConfig_ldr[c], G_held
+
+//@ func (Stack).SetNegativeIndices
+//@ tags C18
+//@ safety C08,C17
+//@ requires r == nil || wf(r)
+//@ let c := cfgOf(r)
+//@ let o := F_nodeConfig_opt[c]
+//@ let live := r != nil && !bit(o, 0x0080)
+//@ ensures[C18:SetNegativeIndices.set] live && len(state) > 0 && state[0] ==> F_nodeConfig_opt[c] == o | 0x0010
+//@ ensures[C18:SetNegativeIndices.clear] live && len(state) > 0 && !state[0] ==> F_nodeConfig_opt[c] == o &^ 0x0010
+//@ ensures[C18:SetNegativeIndices.toggle] live && len(state) == 0 ==> F_nodeConfig_opt[c] == o ^ 0x0010
+//@ ensures[C18,C09:SetNegativeIndices.dead] r != nil && !live ==> F_nodeConfig_opt[c] == o
+//@ ensures[:SetNegativeIndices.ret] result == r
+//@ modifies F_nodeConfig_opt[c], F_nodeConfig_ldr[c], G_held
+
+//@ func (Stack).SetForwardIndices
+//@ tags C18
+//@ safety C08,C17
+//@ requires r == nil || wf(r)
+//@ let c := cfgOf(r)
+//@ let o := F_nodeConfig_opt[c]
+//@ let live := r != nil && !bit(o, 0x0080)
+//@ ensures[C18:SetForwardIndices.set] live && len(state) > 0 && state[0] ==> F_nodeConfig_opt[c] == o | 0x0020
+//@ ensures[C18:SetForwardIndices.clear] live && len(state) > 0 && !state[0] ==> F_nodeConfig_opt[c] == o &^ 0x0020
+//@ ensures[C18:SetForwardIndices.toggle] live && len(state) == 0 ==> F_nodeConfig_opt[c] == o ^ 0x0020
+//@ ensures[C18,C09:SetForwardIndices.dead] r != nil && !live ==> F_nodeConfig_opt[c] == o
+//@ ensures[:SetForwardIndices.ret] result == r
+//@ modifies F_nodeConfig_opt[c], F_nodeConfig_ldr[c], G_held
+
+//@ func (Stack).SetReadOnly
+//@ tags C18
+//@ safety C08,C17
+//@ requires r == nil || wf(r)
+//@ let c := cfgOf(r)
+//@ let o := F_nodeConfig_opt[c]
+//@ let live := r != nil
+//@ ensures[C18:SetReadOnly.set] live && len(state) > 0 && state[0] ==> F_nodeConfig_opt[c] == o | 0x0080
+//@ ensures[C18:SetReadOnly.clear] live && len(state) > 0 && !state[0] ==> F_nodeConfig_opt[c] == o &^ 0x0080
+//@ ensures[C18:SetReadOnly.toggle] live && len(state) == 0 ==> F_nodeConfig_opt[c] == o ^ 0x0080
+//@ ensures[C18,C09:SetReadOnly.dead] r != nil && !live ==> F_nodeConfig_opt[c] == o
+//@ ensures[:SetReadOnly.ret] result == r
+//@ modifies F_nodeConfig_opt[c], F_nodeConfig_ldr[c], G_held
+
+//@ func (Stack).SetNoNesting
+//@ tags C18
+//@ safety C08,C17
+//@ requires r == nil || wf(r)
+//@ let c := cfgOf(r)
+//@ let o := F_nodeConfig_opt[c]
+//@ let live := r != nil && !bit(o, 0x0080)
+//@ ensures[C18:SetNoNesting.set] live && len(state) > 0 && state[0] ==> F_nodeConfig_opt[c] == o | 0x0100
+//@ ensures[C18:SetNoNesting.clear] live && len(state) > 0 && !state[0] ==> F_nodeConfig_opt[c] == o &^ 0x0100
+//@ ensures[C18:SetNoNesting.toggle] live && len(state) == 0 ==> F_nodeConfig_opt[c] == o ^ 0x0100
+//@ ensures[C18,C09:SetNoNesting.dead] r != nil && !live ==> F_nodeConfig_opt[c] == o
+//@ ensures[:SetNoNesting.ret] result == r
+//@ modifies F_nodeConfig_opt[c], F_nodeConfig_ldr[c], G_held
+
+//@ func (Stack).Paren
+//@ tags C18
+//@ safety C08,C17
+//@ requires r == nil || wf(r)
+//@ let c := cfgOf(r)
+//@ let o := F_nodeConfig_opt[c]
+//@ let live := r != nil && !bit(o, 0x0080)
+//@ ensures[C18:Paren.set] live && len(state) > 0 && state[0] ==> F_nodeConfig_opt[c] == o | 0x0001
+//@ ensures[C18:Paren.clear] live && len(state) > 0 && !state[0] ==> F_nodeConfig_opt[c] == o &^ 0x0001
+//@ ensures[C18:Paren.toggle] live && len(state) == 0 ==> F_nodeConfig_opt[c] == o ^ 0x0001
+//@ ensures[C18,C09:Paren.dead] r != nil && !live ==> F_nodeConfig_opt[c] == o
+//@ ensures[:Paren.ret] result == r
+//@ modifies F_nodeConfig_opt[c], F_nodeConfig_ldr[c], G_held
+
+//@ func (Stack).Fold
+//@ tags C18
+//@ safety C08,C17
+//@ requires r == nil || wf(r)
+//@ let c := cfgOf(r)
+//@ let o := F_nodeConfig_opt[c]
+//@ let live := r != nil && !bit(o, 0x0080)
+//@ ensures[C18:Fold.set] live && len(state) > 0 && state[0] ==> F_nodeConfig_opt[c] == o | 0x0002
+//@ ensures[C18:Fold.clear] live && len(state) > 0 && !state[0] ==> F_nodeConfig_opt[c] == o &^ 0x0002
+//@ ensures[C18:Fold.toggle] live && len(state) == 0 ==> F_nodeConfig_opt[c] == o ^ 0x0002
+//@ ensures[C18,C09:Fold.dead] r != nil && !live ==> F_nodeConfig_opt[c] == o
+//@ ensures[:Fold.ret] result == r
+//@ modifies F_nodeConfig_opt[c], F_nodeConfig_ldr[c], G_held
+
+//@ func (Stack).NoPadding
+//@ tags C18
+//@ safety C08,C17
+//@ requires r == nil || wf(r)
+//@ let c := cfgOf(r)
+//@ let o := F_nodeConfig_opt[c]
+//@ let live := r != nil && !bit(o, 0x0080)
+//@ ensures[C18:NoPadding.set] live && len(state) > 0 && state[0] ==> F_nodeConfig_opt[c] == o | 0x0004
+//@ ensures[C18:NoPadding.clear] live && len(state) > 0 && !state[0] ==> F_nodeConfig_opt[c] == o &^ 0x0004
+//@ ensures[C18:NoPadding.toggle] live && len(state) == 0 ==> F_nodeConfig_opt[c] == o ^ 0x0004
+//@ ensures[C18,C09:NoPadding.dead] r != nil && !live ==> F_nodeConfig_opt[c] == o
+//@ ensures[:NoPadding.ret] result == r
+//@ modifies F_nodeConfig_opt[c], F_nodeConfig_ldr[c], G_held
+
+//@ func (Stack).LeadOnce
+//@ tags C18
+//@ safety C08,C17
+//@ requires r == nil || wf(r)
+//@ let c := cfgOf(r)
+//@ let o := F_nodeConfig_opt[c]
+//@ let live := r != nil && !bit(o, 0x0080)
+//@ ensures[C18:LeadOnce.set] live && len(state) > 0 && state[0] ==> F_nodeConfig_opt[c] == o | 0x0008
+//@ ensures[C18:LeadOnce.clear] live && len(state) > 0 && !state[0] ==> F_nodeConfig_opt[c] == o &^ 0x0008
+//@ ensures[C18:LeadOnce.toggle] live && len(state) == 0 ==> F_nodeConfig_opt[c] == o ^ 0x0008
+//@ ensures[C18,C09:LeadOnce.dead] r != nil && !live ==> F_nodeConfig_opt[c] == o
+//@ ensures[:LeadOnce.ret] result == r
+//@ modifies F_nodeConfig_opt[c], F_nodeConfig_ldr[c], G_held
+
+//@ func (Stack).NegativeIndices
+//@ tags C18
+//@ safety C08,C17
+//@ requires r == nil || wf(r)
+//@ let c := cfgOf(r)
+//@ let o := F_nodeConfig_opt[c]
+//@ let live := r != nil && !bit(o, 0x0080)
+//@ ensures[C18:NegativeIndices.set] live && len(state) > 0 && state[0] ==> F_nodeConfig_opt[c] == o | 0x0010
+//@ ensures[C18:NegativeIndices.clear] live && len(state) > 0 && !state[0] ==> F_nodeConfig_opt[c] == o &^ 0x0010
+//@ ensures[C18:NegativeIndices.toggle] live && len(state) == 0 ==> F_nodeConfig_opt[c] == o ^ 0x0010
+//@ ensures[C18,C09:NegativeIndices.dead] r != nil && !live ==> F_nodeConfig_opt[c] == o
+//@ ensures[:NegativeIndices.ret] result == r
+//@ modifies F_nodeConfig_opt[c], F_nodeConfig_ldr[c], G_held
+
+//@ func (Stack).ForwardIndices
+//@ tags C18
+//@ safety C08,C17
+//@ requires r == nil || wf(r)
+//@ let c := cfgOf(r)
+//@ let o := F_nodeConfig_opt[c]
+//@ let live := r != nil && !bit(o, 0x0080)
+//@ ensures[C18:ForwardIndices.set] live && len(state) > 0 && state[0] ==> F_nodeConfig_opt[c] == o | 0x0020
+//@ ensures[C18:ForwardIndices.clear] live && len(state) > 0 && !state[0] ==> F_nodeConfig_opt[c] == o &^ 0x0020
+//@ ensures[C18:ForwardIndices.toggle] live && len(state) == 0 ==> F_nodeConfig_opt[c] == o ^ 0x0020
+//@ ensures[C18,C09:ForwardIndices.dead] r != nil && !live ==> F_nodeConfig_opt[c] == o
+//@ ensures[:ForwardIndices.ret] result == r
+//@ modifies F_nodeConfig_opt[c], F_nodeConfig_ldr[c], G_held
+
+//@ func (Stack).ReadOnly
+//@ tags C18
+//@ safety C08,C17
+//@ requires r == nil || wf(r)
+//@ let c := cfgOf(r)
+//@ let o := F_nodeConfig_opt[c]
+//@ let live := r != nil
+//@ ensures[C18:ReadOnly.set] live && len(state) > 0 && state[0] ==> F_nodeConfig_opt[c] == o | 0x0080
+//@ ensures[C18:ReadOnly.clear] live && len(state) > 0 && !state[0] ==> F_nodeConfig_opt[c] == o &^ 0x0080
+//@ ensures[C18:ReadOnly.toggle] live && len(state) == 0 ==> F_nodeConfig_opt[c] == o ^ 0x0080
+//@ ensures[C18,C09:ReadOnly.dead] r != nil && !live ==> F_nodeConfig_opt[c] == o
+//@ ensures[:ReadOnly.ret] result == r
+//@ modifies F_nodeConfig_opt[c], F_nodeConfig_ldr[c], G_held
+
+//@ func (Stack).NoNesting
+//@ tags C18
+//@ safety C08,C17
+//@ requires r == nil || wf(r)
+//@ let c := cfgOf(r)
+//@ let o := F_nodeConfig_opt[c]
+//@ let live := r != nil && !bit(o, 0x0080)
+//@ ensures[C18:NoNesting.set] live && len(state) > 0 && state[0] ==> F_nodeConfig_opt[c] == o | 0x0100
+//@ ensures[C18:NoNesting.clear] live && len(state) > 0 && !state[0] ==> F_nodeConfig_opt[c] == o &^ 0x0100
+//@ ensures[C18:NoNesting.toggle] live && len(state) == 0 ==> F_nodeConfig_opt[c] == o ^ 0x0100
+//@ ensures[C18,C09:NoNesting.dead] r != nil && !live ==> F_nodeConfig_opt[c] == o
+//@ ensures[:NoNesting.ret] result == r
+//@ modifies F_nodeConfig_opt[c], F_nodeConfig_ldr[c], G_held
+
+//@ func (Condition).SetParen
+//@ tags C18
+//@ safety C06,C17
+//@ requires r == nil || cwf(r)
+//@ let c := F_condition_cfg[r]
+//@ let o := F_nodeConfig_opt[c]
+//@ let live := r != nil && !bit(o, 0x0080)
+//@ ensures[C18:Cond.SetParen.set] live && len(state) > 0 && state[0] ==> F_nodeConfig_opt[c] == o | 0x0001
+//@ ensures[C18:Cond.SetParen.clear] live && len(state) > 0 && !state[0] ==> F_nodeConfig_opt[c] == o &^ 0x0001
+//@ ensures[C18:Cond.SetParen.toggle] live && len(state) == 0 ==> F_nodeConfig_opt[c] == o ^ 0x0001
+//@ ensures[C18,C09:Cond.SetParen.dead] r != nil && !live ==> F_nodeConfig_opt[c] == o
+//@ ensures[:Cond.SetParen.ret] result == r
+//@ modifies F_nodeConfig_opt[c]
+
+//@ func (Condition).SetNoPadding
+//@ tags C18
+//@ safety C06,C17
+//@ requires r == nil || cwf(r)
+//@ let c := F_condition_cfg[r]
+//@ let o := F_nodeConfig_opt[c]
+//@ let live := r != nil && !bit(o, 0x0080)
+//@ ensures[C18:Cond.SetNoPadding.set] live && len(state) > 0 && state[0] ==> F_nodeConfig_opt[c] == o | 0x0004
+//@ ensures[C18:Cond.SetNoPadding.clear] live && len(state) > 0 && !state[0] ==> F_nodeConfig_opt[c] == o &^ 0x0004
+//@ ensures[C18:Cond.SetNoPadding.toggle] live && len(state) == 0 ==> F_nodeConfig_opt[c] == o ^ 0x0004
+//@ ensures[C18,C09:Cond.SetNoPadding.dead] r != nil && !live ==> F_nodeConfig_opt[c] == o
+//@ ensures[:Cond.SetNoPadding.ret] result == r
+//@ modifies F_nodeConfig_opt[c]
+
+//@ func (Condition).SetReadOnly
+//@ tags C18
+//@ safety C06,C17
+//@ requires r == nil || cwf(r)
+//@ let c := F_condition_cfg[r]
+//@ let o := F_nodeConfig_opt[c]
+//@ let live := r != nil
+//@ ensures[C18:Cond.SetReadOnly.set] live && len(state) > 0 && state[0] ==> F_nodeConfig_opt[c] == o | 0x0080
+//@ ensures[C18:Cond.SetReadOnly.clear] live && len(state) > 0 && !state[0] ==> F_nodeConfig_opt[c] == o &^ 0x0080
+//@ ensures[C18:Cond.SetReadOnly.toggle] live && len(state) == 0 ==> F_nodeConfig_opt[c] == o ^ 0x0080
+//@ ensures[C18,C09:Cond.SetReadOnly.dead] r != nil && !live ==> F_nodeConfig_opt[c] == o
+//@ ensures[:Cond.SetReadOnly.ret] result == r
+//@ modifies F_nodeConfig_opt[c]
+
+//@ func (Condition).SetNoNesting
+//@ tags C18
+//@ safety C06,C17
+//@ requires r == nil || cwf(r)
+//@ let c := F_condition_cfg[r]
+//@ let o := F_nodeConfig_opt[c]
+//@ let live := r != nil && !bit(o, 0x0080)
+//@ ensures[C18:Cond.SetNoNesting.set] live && len(state) > 0 && state[0] ==> F_nodeConfig_opt[c] == o | 0x0100
+//@ ensures[C18:Cond.SetNoNesting.clear] live && len(state) > 0 && !state[0] ==> F_nodeConfig_opt[c] == o &^ 0x0100
+//@ ensures[C18:Cond.SetNoNesting.toggle] live && len(state) == 0 ==> F_nodeConfig_opt[c] == o ^ 0x0100
+//@ ensures[C18,C09:Cond.SetNoNesting.dead] r != nil && !live ==> F_nodeConfig_opt[c] == o
+//@ ensures[:Cond.SetNoNesting.ret] result == r
+//@ modifies F_nodeConfig_opt[c]
+
+//@ func (Condition).Paren
+//@ tags C18
+//@ safety C06,C17
+//@ requires r == nil || cwf(r)
+//@ let c := F_condition_cfg[r]
+//@ let o := F_nodeConfig_opt[c]
+//@ let live := r != nil && !bit(o, 0x0080)
+//@ ensures[C18:Cond.Paren.set] live && len(state) > 0 && state[0] ==> F_nodeConfig_opt[c] == o | 0x0001
+//@ ensures[C18:Cond.Paren.clear] live && len(state) > 0 && !state[0] ==> F_nodeConfig_opt[c] == o &^ 0x0001
+//@ ensures[C18:Cond.Paren.toggle] live && len(state) == 0 ==> F_nodeConfig_opt[c] == o ^ 0x0001
+//@ ensures[C18,C09:Cond.Paren.dead] r != nil && !live ==> F_nodeConfig_opt[c] == o
+//@ ensures[:Cond.Paren.ret] result == r
+//@ modifies F_nodeConfig_opt[c]
+
+//@ func (Condition).NoPadding
+//@ tags C18
+//@ safety C06,C17
+//@ requires r == nil || cwf(r)
+//@ let c := F_condition_cfg[r]
+//@ let o := F_nodeConfig_opt[c]
+//@ let live := r != nil && !bit(o, 0x0080)
+//@ ensures[C18:Cond.NoPadding.set] live && len(state) > 0 && state[0] ==> F_nodeConfig_opt[c] == o | 0x0004
+//@ ensures[C18:Cond.NoPadding.clear] live && len(state) > 0 && !state[0] ==> F_nodeConfig_opt[c] == o &^ 0x0004
+//@ ensures[C18:Cond.NoPadding.toggle] live && len(state) == 0 ==> F_nodeConfig_opt[c] == o ^ 0x0004
+//@ ensures[C18,C09:Cond.NoPadding.dead] r != nil && !live ==> F_nodeConfig_opt[c] == o
+//@ ensures[:Cond.NoPadding.ret] result == r
+//@ modifies F_nodeConfig_opt[c]
+
+//@ func (Condition).NoNesting
+//@ tags C18
+//@ safety C06,C17
+//@ requires r == nil || cwf(r)
+//@ let c := F_condition_cfg[r]
+//@ let o := F_nodeConfig_opt[c]
+//@ let live := r != nil && !bit(o, 0x0080)
+//@ ensures[C18:Cond.NoNesting.set] live && len(state) > 0 && state[0] ==> F_nodeConfig_opt[c] == o | 0x0100
+//@ ensures[C18:Cond.NoNesting.clear] live && len(state) > 0 && !state[0] ==> F_nodeConfig_opt[c] == o &^ 0x0100
+//@ ensures[C18:Cond.NoNesting.toggle] live && len(state) == 0 ==> F_nodeConfig_opt[c] == o ^ 0x0100
+//@ ensures[C18,C09:Cond.NoNesting.dead] r != nil && !live ==> F_nodeConfig_opt[c] == o
+//@ ensures[:Cond.NoNesting.ret] result == r
+//@ modifies F_nodeConfig_opt[c]
+
+//@ func (Stack).IsParen
+//@ tags C18
+//@ safety C08,C17
+//@ requires r == nil || wf(r)
+//@ ensures[C18:Stack.IsParen] result == (r != nil && bit(F_nodeConfig_opt[cfgOf(r)], 0x0001))
+//@ modifies nothing
+
+//@ func (Stack).IsPadded
+//@ tags C18
+//@ safety C08,C17
+//@ requires r == nil || wf(r)
+//@ ensures[C18:Stack.IsPadded] result == (r == nil || !bit(F_nodeConfig_opt[cfgOf(r)], 0x0004))
+//@ modifies nothing
+
+//@ func (Stack).IsReadOnly
+//@ tags C18
+//@ safety C08,C17
+//@ requires r == nil || wf(r)
+//@ ensures[C18:Stack.IsReadOnly] result == (r != nil && bit(F_nodeConfig_opt[cfgOf(r)], 0x0080))
+//@ modifies nothing
+
+//@ func (Condition).IsParen
+//@ tags C18
+//@ safety C08,C17
+//@ requires r == nil || cwf(r)
+//@ ensures[C18:Condition.IsParen] result == (r != nil && bit(F_nodeConfig_opt[F_condition_cfg[r]], 0x0001))
+//@ modifies nothing
+
+//@ func (Condition).IsPadded
+//@ tags C18
+//@ safety C08,C17
+//@ requires r == nil || cwf(r)
+//@ ensures[C18:Condition.IsPadded] result == (r == nil || !bit(F_nodeConfig_opt[F_condition_cfg[r]], 0x0004))
+//@ modifies nothing
+
+//@ func (Condition).IsReadOnly
+//@ tags C18
+//@ safety C08,C17
+//@ requires r == nil || cwf(r)
+//@ ensures[C18:Condition.IsReadOnly] result == (r != nil && bit(F_nodeConfig_opt[F_condition_cfg[r]], 0x0080))
+//@ modifies nothing
+
+//@ func (Stack).SetFIFO
+//@ tags C18
+//@ safety C08,C17
+//@ requires r == nil || wf(r)
+//@ let c := cfgOf(r)
+//@ let o := F_nodeConfig_opt[c]
+//@ ensures[C18:SetFIFO.latch] r != nil && !bit(o, 0x0080) ==> F_nodeConfig_ord[c] == (old(F_nodeConfig_ord[c]) || fifo)
+//@ ensures[C18,C09:SetFIFO.ro] r != nil && bit(o, 0x0080) ==> F_nodeConfig_ord[c] == old(F_nodeConfig_ord[c])
+//@ modifies F_nodeConfig_ord[c]
+
+//@ func (Stack).IsFIFO
+//@ tags C18
+//@ safety C08,C17
+//@ requires r == nil || wf(r)
+//@ ensures[C18:IsFIFO] is == (r != nil && F_nodeConfig_ord[cfgOf(r)])
+//@ modifies nothing
+
+//@ func (Stack).SetID
+//@ tags C18
+//@ safety C08,C17
+//@ requires r == nil || wf(r)
+//@ let c := cfgOf(r)
+//@ let o := F_nodeConfig_opt[c]
+//@ ensures[C18:SetID] r != nil && !bit(o, 0x0080) && toLower(id) != "_random" && toLower(id) != "_addr" ==> F_nodeConfig_id[c] == id
+//@ ensures[C18,C09:SetID.ro] r != nil && bit(o, 0x0080) ==> F_nodeConfig_id[c] == old(F_nodeConfig_id[c])
+//@ modifies F_nodeConfig_id[c], F_nodeConfig_ldr[c], G_held
+
+//@ func (Stack).ID
+//@ tags C18
+//@ safety C08,C17
+//@ requires r == nil || wf(r)
+//@ ensures[C18:ID] id == ite(r != nil, F_nodeConfig_id[cfgOf(r)], "unspecified")
+//@ modifies nothing
+
+//@ func (Stack).SetCategory
+//@ tags C18
+//@ safety C08,C17
+//@ requires r == nil || wf(r)
+//@ let c := cfgOf(r)
+//@ let o := F_nodeConfig_opt[c]
+//@ ensures[C18:SetCategory] r != nil ==> F_nodeConfig_cat[c] == ite(bit(o, 0x0080), old(F_nodeConfig_cat[c]), cat)
+//@ modifies F_nodeConfig_cat[c]
+
+//@ func (Stack).Category
+//@ tags C18
+//@ safety C08,C17
+//@ requires r == nil || wf(r)
+//@ ensures[C18:Category] cat == ite(r != nil, F_nodeConfig_cat[cfgOf(r)], "")
+//@ modifies nothing
+
+//@ func (Stack).SetDelimiter
+//@ tags C18
+//@ safety C08,C17
+//@ requires r == nil || wf(r)
+//@ let c := cfgOf(r)
+//@ let o := F_nodeConfig_opt[c]
+//@ let isList := F_nodeConfig_typ[c] == 0x04
+//@ ensures[C18:SetDelimiter.string] r != nil && !bit(o, 0x0080) && isList && is_v_str(x) ==> F_nodeConfig_ljc[c] == str_of(x)
+//@ ensures[C18:SetDelimiter.nil] r != nil && !bit(o, 0x0080) && isList && x == nil ==> F_nodeConfig_ljc[c] == ""
+//@ ensures[C18,C09:SetDelimiter.kept] r != nil && (bit(o, 0x0080) || !isList) ==> F_nodeConfig_ljc[c] == old(F_nodeConfig_ljc[c])
+//@ modifies F_nodeConfig_ljc[c]
+
+//@ func (Stack).Delimiter
+//@ tags C18
+//@ safety C08,C17
+//@ requires r == nil || wf(r)
+//@ ensures[C18:Delimiter] d == ite(r != nil, F_nodeConfig_ljc[cfgOf(r)], "")
+//@ modifies nothing
+
+//@ func (Stack).SetAuxiliary
+//@ tags C18
+//@ safety C08,C17
+//@ requires r == nil || wf(r)
+//@ let c := cfgOf(r)
+//@ let o := F_nodeConfig_opt[c]
+//@ ensures[C18:SetAuxiliary.given] r != nil && !bit(o, 0x0080) && len(aux) > 0 && aux[0] != nil ==> F_nodeConfig_aux[c] == aux[0]
+//@ ensures[C18:SetAuxiliary.default] r != nil && !bit(o, 0x0080) && (len(aux) == 0 || aux[0] == nil) ==> fresh(F_nodeConfig_aux[c])
+//@ ensures[C18,C09:SetAuxiliary.ro] r != nil && bit(o, 0x0080) ==> F_nodeConfig_aux[c] == old(F_nodeConfig_aux[c])
+//@ modifies F_nodeConfig_aux[c], Map_len[fresh], Map_Str_Val_has[fresh]
+
+//@ func (Stack).Auxiliary
+//@ tags C18
+//@ safety C08,C17
+//@ requires r == nil || wf(r)
+//@ ensures[C18:Auxiliary] aux == ite(r != nil, F_nodeConfig_aux[cfgOf(r)], nil)
+//@ modifies nothing
